@@ -250,6 +250,15 @@ class Emit:
         raise Unsupported("expression form " + k)
 
     # ---- imperative bodies (loops with mutable vectors): state-passing translation
+    def lhs_name(self, x):
+        """the Lean variable a mutable place is translated to: a local, or a field path listed in `fieldpath`"""
+        d = self.dotted(x)
+        if d is None:
+            return None
+        if d in self.cfg.get("fieldpath", {}):
+            return self.cfg["fieldpath"][d]
+        return ident(d) if "." not in d else None
+
     def assigned(self, stmts):
         """variables assigned / pushed to / popped in the statements (recursively), minus those `let`-declared at this level"""
         out, declared = [], set()
@@ -257,10 +266,10 @@ class Emit:
             if v not in declared and v not in out:
                 out.append(v)
         def walk(x):
-            if x[0] == "assign" and x[1][0] == "path" and len(x[1][1]) == 1:
-                add(x[1][1][0])
-            elif x[0] == "mcall" and x[2] in ("push", "pop", "clear", "truncate") and x[1][0] == "path":
-                add(x[1][1][0])
+            if x[0] == "assign" and self.lhs_name(x[1]) is not None:
+                add(self.lhs_name(x[1]))
+            elif x[0] == "mcall" and x[2] in ("push", "pop", "push_back", "pop_front") and self.lhs_name(x[1]) is not None:
+                add(self.lhs_name(x[1]))
             elif x[0] == "for":
                 for v in self.assigned(self.as_stmts(x[3])):
                     add(v)
@@ -286,7 +295,7 @@ class Emit:
         return st
 
     def tup(self, vs):
-        return ident(vs[0]) if len(vs) == 1 else "(" + ", ".join(ident(v) for v in vs) + ")"
+        return vs[0] if len(vs) == 1 else "(" + ", ".join(vs) + ")"
 
     def imp(self, stmts, result):
         if not stmts:
@@ -298,14 +307,17 @@ class Emit:
         x = s[1]
         if x[0] == "macro" and x[1] in ("assert", "debug_assert", "assert_eq"):
             return tailstr()
-        if x[0] == "assign" and x[1][0] == "path" and len(x[1][1]) == 1:
-            return "let %s := %s;\n    %s" % (ident(x[1][1][0]), self.e(x[2]), tailstr())
-        if x[0] == "mcall" and x[1][0] == "path" and len(x[1][1]) == 1 and x[2] == "push" and len(x[3]) == 1:
-            v = ident(x[1][1][0])
+        if x[0] == "assign" and self.lhs_name(x[1]) is not None:
+            return "let %s := %s;\n    %s" % (self.lhs_name(x[1]), self.e(x[2]), tailstr())
+        if x[0] == "mcall" and self.lhs_name(x[1]) is not None and x[2] in ("push", "push_back") and len(x[3]) == 1:
+            v = self.lhs_name(x[1])
             return "let %s := (%s ++ [%s]);\n    %s" % (v, v, self.e(x[3][0]), tailstr())
-        if x[0] == "mcall" and x[1][0] == "path" and len(x[1][1]) == 1 and x[2] == "pop" and not x[3]:
-            v = ident(x[1][1][0])
+        if x[0] == "mcall" and self.lhs_name(x[1]) is not None and x[2] == "pop" and not x[3]:
+            v = self.lhs_name(x[1])
             return "let %s := (List.dropLast %s);\n    %s" % (v, v, tailstr())
+        if x[0] == "mcall" and self.lhs_name(x[1]) is not None and x[2] == "pop_front" and not x[3]:
+            v = self.lhs_name(x[1])
+            return "let %s := (List.tail %s);\n    %s" % (v, v, tailstr())
         if x[0] == "for":
             if x[1][0] != "pvar" or x[2][0] != "range":
                 raise Unsupported("for loop that is not `for i in a..b`")
@@ -329,6 +341,11 @@ class Emit:
 
     def imperative(self, body):
         _, stmts, tail = body
+        if "result" in self.cfg:                      # a `&mut self` method: the value is the tuple of the places it writes
+            st = list(stmts)
+            if tail is not None and not (tail[0] == "call" and tail[1] == ("path", ["Ok"])):
+                st.append(("expr", tail))
+            return "(" + self.imp(st, self.cfg["result"]) + ")"
         if tail is None:
             raise Unsupported("imperative body without a value")
         return "(" + self.imp(list(stmts), self.e(tail)) + ")"
@@ -463,6 +480,34 @@ LOGIC = [
          cast={"i128": "(({0} : Nat) : Int)"},
          method={"abs": "Int.natAbs {0}", "max_idle_epochs": "maxIdle", "validate": "constraints_validate constraints {1} {2}"},
          call={"Universal2DBox::dist_in_2r": "centerDist"}),
+    dict(group="Attr", name="sort_update_history", file="trackers/sort.rs", impl=r"impl SortAttributes \{", fn="update_history",
+         sig="{β : Type} (history_length : Nat) (track_length : Nat) (observed_boxes predicted_boxes : List β) (observation_bbox predicted_bbox : β) : Nat × List β × List β",
+         imperative=True, result="(track_length, observed_boxes, predicted_boxes)",
+         fieldpath={"self.track_length": "track_length", "self.observed_boxes": "observed_boxes", "self.predicted_boxes": "predicted_boxes",
+                    "self.opts.history_length": "history_length"},
+         method={"len": "List.length {0}", "clone": "{0}"}),
+    dict(group="Attr", name="visual_update_history", file="trackers/visual_sort/track_attributes.rs", impl=r"impl VisualAttributes \{", fn="update_history",
+         sig="{β φ : Type} (history_length : Nat) (track_length : Nat) (observed_boxes predicted_boxes : List β) (observed_features : List φ) (observation_bbox predicted_bbox : β) (observation_feature : φ) : Nat × List β × List β × List φ",
+         imperative=True, result="(track_length, observed_boxes, predicted_boxes, observed_features)",
+         fieldpath={"self.track_length": "track_length", "self.observed_boxes": "observed_boxes", "self.predicted_boxes": "predicted_boxes",
+                    "self.observed_features": "observed_features", "self.opts.history_length": "history_length"},
+         method={"len": "List.length {0}", "clone": "{0}"}),
+    dict(group="Attr", name="sort_merge", file="trackers/sort.rs", impl=r"impl TrackAttributes<SortAttributes, Universal2DBox> for SortAttributes \{", fn="merge",
+         sig="{ι : Type} (last_updated_epoch : Nat) (custom_object_id : ι) (other_epoch : Nat) (other_custom : ι) : Nat × ι",
+         imperative=True, result="(last_updated_epoch, custom_object_id)",
+         fieldpath={"self.last_updated_epoch": "last_updated_epoch", "self.custom_object_id": "custom_object_id",
+                    "other.last_updated_epoch": "other_epoch", "other.custom_object_id": "other_custom"}),
+    dict(group="Attr", name="visual_merge", file="trackers/visual_sort/track_attributes.rs",
+         impl=r"impl TrackAttributes<VisualAttributes, VisualObservationAttributes> for VisualAttributes \{", fn="merge",
+         sig="{ι ν : Type} (last_updated_epoch : Nat) (custom_object_id : ι) (voting_type : ν) (other_epoch : Nat) (other_custom : ι) (other_voting : ν) : Nat × ι × ν",
+         imperative=True, result="(last_updated_epoch, custom_object_id, voting_type)",
+         fieldpath={"self.last_updated_epoch": "last_updated_epoch", "self.custom_object_id": "custom_object_id", "self.voting_type": "voting_type",
+                    "other.last_updated_epoch": "other_epoch", "other.custom_object_id": "other_custom", "other.voting_type": "other_voting"}),
+    dict(group="Attr", name="sort_apply_update", file="trackers/sort.rs", impl=r"impl TrackAttributesUpdate<SortAttributes> for SortAttributesUpdate \{", fn="apply",
+         sig="{ι : Type} (last_updated_epoch scene_id : Nat) (custom_object_id : ι) (epoch scene : Nat) (custom : ι) : Nat × Nat × ι",
+         imperative=True, result="(last_updated_epoch, scene_id, custom_object_id)",
+         fieldpath={"attrs.last_updated_epoch": "last_updated_epoch", "attrs.scene_id": "scene_id", "attrs.custom_object_id": "custom_object_id",
+                    "self.epoch": "epoch", "self.scene_id": "scene", "self.custom_object_id": "custom"}),
 ]
 
 
@@ -521,6 +566,7 @@ def main():
         jobs.append(("K" + g + ".lean", [c for c in KERNELS if c["group"] == g], HEADER_K % K_IMPORTS.get(g, "") + K_PRELUDE.get(g, ""), "SimVerif.Gen.K"))
     jobs.append(("LEpoch.lean", [c for c in LOGIC if c["group"] == "Epoch"], HEADER_L + PRELUDE_EPOCH, "SimVerif.Gen.L"))
     jobs.append(("LConstr.lean", [c for c in LOGIC if c["group"] == "Constr"], HEADER_L, "SimVerif.Gen.L"))
+    jobs.append(("LAttr.lean", [c for c in LOGIC if c["group"] == "Attr"], HEADER_L, "SimVerif.Gen.L"))
     jobs.append(("LCompat.lean", [c for c in LOGIC if c["group"] == "Compat"], "import SimVerif.Gen.LConstr\n" + HEADER_L, "SimVerif.Gen.L"))
     for fname, cfgs, hdr, ns in jobs:
         text, unread = gen(repo, cfgs, hdr, "end " + ns + "\n")
